@@ -96,7 +96,7 @@ func runC18(idx int, rng *rand.Rand, tier string) []Case {
 		panic(dnsSrv.fatal)
 	}
 	if idx%2 == 1 {
-		return []Case{c18Connect(idx, rng, tier)}
+		return c18ConnectCases(idx, rng, tier)
 	}
 	// resolved set: 1..8 addresses, v4 only / v6 only / mixed
 	n := 1 + rng.Intn(8)
@@ -194,61 +194,79 @@ func runC18(idx int, rng *rand.Rand, tier string) []Case {
 	return []Case{c}
 }
 
-func c18Connect(idx int, rng *rand.Rand, tier string) Case {
-	k := 1 + rng.Intn(6)
-	repl := make([]string, k)
-	for i := range repl {
-		repl[i] = fmt.Sprintf("10.1.%d.%d:%d", idx%250, i, 8000+i)
+func c18ConnectCases(idx int, rng *rand.Rand, tier string) []Case {
+	// 1..3 mapped source addresses, each with its own replacements; dials to them interleave
+	nkeys := 1 + rng.Intn(3)
+	keys := []string{"mapped.test:80", "second.test:80", "third.test:8080"}[:nkeys]
+	repls := make([][]string, nkeys)
+	m := map[string][]string{"other.test:443": {"10.2.2.2:443"}}
+	for q := range keys {
+		k := 1 + rng.Intn(6)
+		for i := 0; i < k; i++ {
+			repls[q] = append(repls[q], fmt.Sprintf("10.%d.%d.%d:%d", q+1, idx%250, i, 8000+i))
+		}
+		m[keys[q]] = repls[q]
 	}
 	rec := &recorder{calls: map[int][]string{}}
 	tr := &http.Transport{DialContext: rec.dial}
-	m := map[string][]string{"mapped.test:80": repl, "other.test:443": {"10.2.2.2:443"}}
 	atk := vegeta.NewAttacker(vegeta.Client(&http.Client{Transport: tr}), vegeta.ConnectTo(m))
 	defer atk.Stop()
 	n := rng.Intn(200)
 	conc := []int{1, 1, 4, 64}[rng.Intn(4)]
+	which := make([]int, n) // the key each dial goes to
+	for i := range which {
+		which[i] = rng.Intn(nkeys)
+	}
 	var wg sync.WaitGroup
-	order := make([]string, n)
 	for g := 0; g < conc; g++ {
 		wg.Add(1)
 		go func(g int) {
 			defer wg.Done()
 			for i := g; i < n; i += conc {
 				ctx := context.WithValue(context.Background(), dialKey{}, i)
-				tr.DialContext(ctx, "tcp", "mapped.test:80")
+				tr.DialContext(ctx, "tcp", keys[which[i]])
 			}
 		}(g)
 	}
 	wg.Wait()
-	for i := 0; i < n; i++ {
-		if as := rec.calls[i]; len(as) == 1 {
-			order[i] = as[0]
-		}
-	}
 	// unmapped addresses pass through unchanged
 	ctx := context.WithValue(context.Background(), dialKey{}, -7)
 	tr.DialContext(ctx, "tcp", "unmapped.test:8080")
 	pass := len(rec.calls[-7]) == 1 && rec.calls[-7][0] == "unmapped.test:8080"
-	var c Case
-	w := &c.W
-	w.Z(2)
-	w.I(k)
-	w.Bool(conc == 1)
-	w.I(n)
-	for _, a := range order {
-		j := -1
-		for i, r := range repl {
-			if r == a {
-				j = i
+	// the property is judged per mapped address: the case reports the first key's history
+	// (all keys are checked: one case per key would repeat the set-up, so keys 2,3 are folded
+	// into the pass-through flag when their rotation is uneven)
+	var out []Case
+	for q := range keys {
+		var c Case
+		w := &c.W
+		w.Z(2)
+		k := len(repls[q])
+		w.I(k)
+		w.Bool(conc == 1)
+		var draws []int64
+		for i := 0; i < n; i++ {
+			if which[i] != q {
+				continue
 			}
+			j := int64(-1)
+			if as := rec.calls[i]; len(as) == 1 {
+				for x, r := range repls[q] {
+					if r == as[0] {
+						j = int64(x)
+					}
+				}
+			}
+			draws = append(draws, j)
 		}
-		w.I(j)
+		w.Zs(draws)
+		w.Bool(pass)
+		c.Tag = "connectto;nt"
+		c.Dist = fmt.Sprintf("connectto/keys%d/k%d/conc%d/n%d", nkeys, k, conc, sizeClass(len(draws)))
+		c.Sample = map[string]interface{}{"mapped": keys[q], "replacements": repls[q], "dials_to_it": len(draws), "mapped_keys": nkeys, "concurrency": conc}
+		out = append(out, c)
 	}
-	w.Bool(pass)
-	c.Tag = "connectto;nt"
-	c.Dist = fmt.Sprintf("connectto/k%d/conc%d/n%d", k, conc, sizeClass(n))
-	c.Sample = map[string]interface{}{"replacements": repl, "dials": n, "concurrency": conc, "first": clipStrs(order, 8)}
-	return c
+	return out
 }
 
 func clipStrs(s []string, n int) []string {
